@@ -231,3 +231,32 @@ def state_image(F, old, new, t, a):
         else:
             conds.append(deep_eq(o, n, F, CACHE_ATTRS))
     return conj(conds)
+
+
+# ------------------------------------------------------------------------------ placement (C04)
+
+
+def placed(F, new, local, p, th):
+    """`new` is `local` rotated by th about its own reference point and moved by p (property C04)"""
+    if F.isinstance(local, Rectangle):
+        if not F.isinstance(new, Rectangle):
+            return z3.BoolVal(False)
+        c0, c1 = xy(F, F.attr(local, "center")), xy(F, F.attr(new, "center"))
+        return z3.And(R(c1[0]) == R(c0[0]) + R(p[0]), R(c1[1]) == R(c0[1]) + R(p[1]),
+                      angle_eq(F.attr(new, "orientation"), R(F.attr(local, "orientation")) + R(th), 3),
+                      R(F.attr(new, "orientation")) <= TWO_PI, R(F.attr(new, "orientation")) >= -TWO_PI,
+                      R(F.attr(new, "length")) == R(F.attr(local, "length")), R(F.attr(new, "width")) == R(F.attr(local, "width")))
+    if F.isinstance(local, Circle):
+        if not F.isinstance(new, Circle):
+            return z3.BoolVal(False)
+        c0, c1 = xy(F, F.attr(local, "center")), xy(F, F.attr(new, "center"))
+        return z3.And(R(c1[0]) == R(c0[0]) + R(p[0]), R(c1[1]) == R(c0[1]) + R(p[1]),
+                      R(F.attr(new, "radius")) == R(F.attr(local, "radius")))
+    if F.isinstance(local, ShapeGroup):
+        if not F.isinstance(new, ShapeGroup):
+            return z3.BoolVal(False)
+        ns, ls = F.items(F.attr(new, "shapes")), F.items(F.attr(local, "shapes"))
+        if len(ns) != len(ls):
+            return z3.BoolVal(False)
+        return conj(placed(F, x, y, p, th) for x, y in zip(ns, ls))
+    raise NotImplementedError("placed for %r" % F.type(local))
